@@ -312,7 +312,7 @@ def analyse(body, spec=None, carries=lambda ty, cm: cm, track_all_vars=False):
         if not owns_msgs(ty):
             continue
         pshow = _stable_show(body, p)
-        states = ex.states.get(b.i, set())
+        states = ex.out_states.get(b.i, set())
         if not states:
             res.drop_sites.append((b.i, pshow, ty, 'unreachable', 'no feasible path (drop flag false on all paths)'))
             continue
@@ -344,7 +344,7 @@ def analyse(body, spec=None, carries=lambda ty, cm: cm, track_all_vars=False):
         if bad_state is None:
             res.drop_sites.append((b.i, pshow, ty, 'excused', '; '.join(sorted(reasons))))
         else:
-            w = ex.witness(b.i, bad_state)
+            w = ex.witness(b.i, ex.out_entry.get((b.i, bad_state), bad_state))
             res.drop_sites.append((b.i, pshow, ty, 'LIVE', ''))
             res.live_drops.append({'block': b.i, 'place': pshow, 'ty': ty, 'sp': b.term.sp,
                                    'witness': [(x, body.blocks[x].term.sp['l'] if body.blocks[x].term.sp else None) for x in w][-60:],
